@@ -42,11 +42,18 @@ def _round_and_clip(
 ) -> np.ndarray:
   """Round and clip the tensor to the given type, but don't cast it."""
   qmin, qmax = get_quantized_range(qtype)
+  narrow_qmin = qmin + 1
+  if qtype.num_bits > 53:
+    # The bounds of a 64-bit type are not representable as floats:
+    # float(2**63 - 1) is 2**63, which wraps around to -2**63 when the clipped
+    # tensor is cast to int64. Saturate at the nearest floats inside the range.
+    qmax = np.nextafter(qmax, 0.0)
+    narrow_qmin = np.nextafter(qmin, 0.0)
   if narrow:
     if qtype.signed:
       return np.clip(
           np.rint(tensor),
-          qmin + 1,
+          narrow_qmin,
           qmax,
       )
     else:
